@@ -20,6 +20,7 @@ import (
 	"runtime"
 	"sort"
 	"strings"
+	gosync "sync"
 	"time"
 
 	"github.com/brutella/hc/accessory"
@@ -282,6 +283,68 @@ func ops() []op {
 const pointCap = 1500
 
 // capFor: with one preemption the number of schedules grows linearly with the points, so the cap can be generous
+// yieldHooks makes every inserted statement hook a scheduling point of the running managed thread (up to cap points
+// per thread) and every go statement of the instrumented packages the start of a new managed thread.
+func yieldHooks(S *sched.Sched, cap int, capped *bool) {
+	var counts []int
+	vyield.Hook = func() {
+		if !S.Active() {
+			return
+		}
+		t := S.Current()
+		for t >= len(counts) {
+			counts = append(counts, 0)
+		}
+		counts[t]++
+		if counts[t] > cap {
+			if capped != nil {
+				*capped = true
+			}
+			return
+		}
+		S.Point(nil)
+	}
+	vyield.GoHook = func(fn func()) {
+		if !S.Active() {
+			spawnFree(fn)
+			return
+		}
+		S.Spawn(fn)
+	}
+}
+
+func removeYieldHooks() {
+	vyield.Hook = nil
+	vyield.GoHook = spawnFree
+}
+
+// Outside the scheduler (reference runs of one operation after the other) a goroutine started by instrumented code
+// runs freely; waitFree waits for all of them (at most 2 s), so that the reference observation is taken at rest.
+var freeWG gosync.WaitGroup
+
+func spawnFree(fn func()) {
+	freeWG.Add(1)
+	go func() {
+		defer freeWG.Done()
+		fn()
+	}()
+}
+
+func waitFree() {
+	done := make(chan struct{})
+	go func() { freeWG.Wait(); close(done) }()
+	select {
+	case <-done:
+	case <-time.After(2 * time.Second):
+	}
+}
+
+func init() { vyield.GoHook = spawnFree }
+
+func diverged(pa, pb interface{}) bool {
+	return strings.Contains(fmt.Sprint(pa), "replay divergence") || strings.Contains(fmt.Sprint(pb), "replay divergence")
+}
+
 func capFor(bound int) int {
 	if bound <= 1 {
 		return 40000
@@ -300,20 +363,8 @@ func explorePair(scratch string, a, b op, bound int, rep *Report, deadline time.
 	nviol := 0
 	sched.Explore(bound, func(prefix []int) []sched.PointRec {
 		S := &sched.Sched{}
-		counts := [2]int{}
 		capped := false
-		vyield.Hook = func() {
-			if !S.Active() {
-				return
-			}
-			t := S.Current()
-			counts[t]++
-			if counts[t] > capFor(bound) {
-				capped = true
-				return
-			}
-			S.Point(nil)
-		}
+		yieldHooks(S, capFor(bound), &capped)
 		installSync(S)
 		var ra, rb string
 		var pa, pb interface{}
@@ -328,7 +379,7 @@ func explorePair(scratch string, a, b op, bound int, rep *Report, deadline time.
 			}
 		}
 		out := S.Run(prefix, []func(){guard(a.run, &ra, &pa), guard(b.run, &rb, &pb)})
-		vyield.Hook = nil
+		removeYieldHooks()
 		removeSync()
 		pr.Schedules++
 		pr.Points += len(out.Points)
@@ -343,6 +394,10 @@ func explorePair(scratch string, a, b op, bound int, rep *Report, deadline time.
 		case out.Deadlock:
 			rep.Violations = append(rep.Violations, Violation{"interference/deadlock/" + kind, "two operations on disjoint objects block each other: " + a.name + " ‖ " + b.name, cas})
 			nviol++
+		case diverged(pa, pb):
+			// the execution did not repeat under the recorded choices: something in the code under test is not
+			// deterministic (e.g. a goroutine the scheduler does not own); this schedule decides nothing
+			pr.Exhaustive = false
 		case pa != nil || pb != nil:
 			rep.Violations = append(rep.Violations, Violation{"interference/panic/" + kind, fmt.Sprintf("an operation panics only when interleaved with an operation on other objects (%v %v): %s ‖ %s", pa, pb, a.name, b.name), cas})
 			nviol++
@@ -539,18 +594,7 @@ func kindOf(name string) string {
 func replayOne(scratch string, a, b op, cas Case, rep *Report) {
 	soloA, soloB := a.run(scratch), b.run(scratch)
 	S := &sched.Sched{}
-	counts := [2]int{}
-	vyield.Hook = func() {
-		if !S.Active() {
-			return
-		}
-		t := S.Current()
-		counts[t]++
-		if counts[t] > capFor(cas.Bound) {
-			return
-		}
-		S.Point(nil)
-	}
+	yieldHooks(S, capFor(cas.Bound), nil)
 	installSync(S)
 	var ra, rb string
 	var pa, pb interface{}
@@ -565,7 +609,7 @@ func replayOne(scratch string, a, b op, cas Case, rep *Report) {
 		}
 	}
 	out := S.Run(cas.Schedule, []func(){guard(a.run, &ra, &pa), guard(b.run, &rb, &pb)})
-	vyield.Hook = nil
+	removeYieldHooks()
 	removeSync()
 	rep.Pairs = append(rep.Pairs, PairReport{A: a.name, B: b.name, Bound: cas.Bound, Schedules: 1, Points: len(out.Points), Exhaustive: true})
 	kind := strings.SplitN(a.name, ":", 2)[0] + "|" + strings.SplitN(b.name, ":", 2)[0]
